@@ -2,7 +2,10 @@
 
 package leader
 
-import "time"
+import (
+	"strings"
+	"time"
+)
 
 // vpH_C10_T_safety: a candidate with symbolic priority and takeover flag starts next to a live record of
 // another instance with symbolic stored priority (or arbitrary bytes); between any two store operations of
@@ -94,6 +97,58 @@ func vpH_C10_T_prompt() {
 	stop = true
 	vpCover("C10.prompt")
 	vpAssert("C10.prompt-takeover", cb.promotes >= 1 && cb.promoteAt-t0 <= int64(3*H))
+	vpAuditLog(st, "a", true, 5, false)
+	_ = e.Stop()
+}
+
+// vpH_C10_T_prompt_watch: the candidate (priority 5) is a settled follower of a priority-9 leader (all its
+// attempts failed legitimately, no acquisition round is running); that leader crashes and a priority-1
+// instance gets the record first. From then on only the candidate's watch-triggered takeover path can act:
+// its first k (0..2) attempts lose the race against a refresh of the incumbent; it must lead within 3H+.
+func vpH_C10_T_prompt_watch() {
+	H := time.Second
+	vpSetOpt("rand-fixed", 1)
+	st := vpNewStore("g", 0)
+	st.write("env:hi", "create", vpRecMk("hi", "tok-hi", 9), false, 0)
+	kv := vpHandle(st, "a")
+	lost := vpChoose("lost-races", 3)
+	kv.afterApply = func(op string) {
+		if op == "get" && lost > 0 && st.live() && st.writer == "env:low" && strings.Contains(vpSite(), "handleWatchEvent") {
+			lost--
+			st.write("env:low", "update", vpRecMk("low", "tok-low", 1), false, st.lastSeq)
+			vpEvent("race-lost")
+		}
+	}
+	cfg := vpBaseConfig("a", H, 3*H)
+	cfg.ValidationInterval = time.Hour
+	cfg.Priority = 5
+	cfg.AllowPriorityTakeover = true
+	e := vpMustNew(&vpProvider{kv}, cfg)
+	cb := &vpCallbacks{}
+	cb.install(e)
+	_ = e.Start(vpRootCtx())
+	time.Sleep(H + H/4) // settled follower: start attempt and first round are over
+	vpQuiesce()
+	vpAssert("harness.follower", !e.IsLeader())
+	// hi is gone (expired silently), low created the record before anybody else
+	st.noEvents = true
+	st.write("env:hi", "delete", nil, true, 0)
+	st.noEvents = false
+	st.write("env:low", "create", vpRecMk("low", "tok-low", 1), false, 0)
+	t0 := vpNow()
+	go func() { // low heartbeats every H
+		for i := 0; i < 4; i++ {
+			time.Sleep(H)
+			if st.live() && st.writer == "env:low" {
+				st.write("env:low", "update", vpRecMk("low", "tok-low", 1), false, st.lastSeq)
+			}
+		}
+	}()
+	time.Sleep(4*H + H/2)
+	vpQuiesce()
+	vpCover("C10.prompt-watch")
+	// every lost race costs one heartbeat of the incumbent: leader within (1 + lost races) heartbeats, at most 3H
+	vpAssert("C10.prompt-takeover", cb.promotes >= 1 && cb.promoteAt-t0 <= int64(3*H+H/10))
 	vpAuditLog(st, "a", true, 5, false)
 	_ = e.Stop()
 }
